@@ -127,7 +127,23 @@ pub enum Op {
     InsertComposite { id: Id, children: Vec<ChildSpec>, script: Script },
     /// harness source that opts into before_sleep / before_handle_events; `synth` lists,
     /// per dispatch, whether before_sleep returns a synthetic event
-    InsertLifecycle { id: Id, with_ping: bool, with_timer: Option<Deadline>, synth: Vec<bool>, script: Script },
+    /// `two`: a second ping child on a third sub-token; `fail_step2`: its registration fails
+    /// at that last step (after the first child went into the poller); `keep_rejected`: the
+    /// program keeps the source a failed insertion hands back instead of dropping it (what is
+    /// already registered then stays in the poller under the slot's old generation)
+    InsertLifecycle {
+        id: Id,
+        with_ping: bool,
+        with_timer: Option<Deadline>,
+        synth: Vec<bool>,
+        script: Script,
+        #[serde(default)]
+        two: bool,
+        #[serde(default)]
+        fail_step2: bool,
+        #[serde(default)]
+        keep_rejected: bool,
+    },
     /// a parent holding TransientSource<child>; child over a pipe read end or a timer
     InsertTransient { id: Id, child: ChildSpec, from_default: bool, script: Script },
     // ---- token operations (any token ever issued, live or stale)
@@ -210,6 +226,8 @@ pub enum Op {
     AdapterPeerWrite(Id, u32),
     AdapterPeerRead(Id, u32),
     AdapterPeerClose(Id),
+    /// the peer writes its last n bytes and closes without reading what was sent to it
+    AdapterPeerLastWords(Id, u32),
     /// reuse one slot n times (insert a far-away timer, remove it) while checking that tokens
     /// issued 1, 255, 256, 4095, 65535 reuses ago stay dead
     SlotChurn(u32),
@@ -343,6 +361,7 @@ impl Op {
             Op::AdapterPeerWrite(..) => "AdapterPeerWrite",
             Op::AdapterPeerRead(..) => "AdapterPeerRead",
             Op::AdapterPeerClose(_) => "AdapterPeerClose",
+            Op::AdapterPeerLastWords(..) => "AdapterPeerLastWords",
             Op::SlotChurn(_) => "SlotChurn",
             Op::ScheduleTimeout { .. } => "ScheduleTimeout",
             Op::Run { .. } => "Run",
